@@ -530,7 +530,7 @@ SPECS['C17'] = dict(
     bounds={'quick': 'Condition: 2 waiters (timed or not, symbolic) || 1 notifier doing 1 operation (notify/notify_all, symbolic), K=35 steps (2 operations, K=54, thorough only); '
                      'Event: {wait,wait,set}, {wait,set,clear}, {is_set,set,wait} from a clear event, {is_set,clear}, {wait,is_set,clear} from a set event, K=12..51; 6-bit counters; lock recursion depth 1',
             'thorough': 'plus 3 waiters || 1 operation (K=48)'},
-    outside=['more threads / operations than listed', 'Condition.wait_for (a loop around wait with clock arithmetic)', 'RLock recursion depth > 1',
+    outside=['more threads / operations than listed', 'Condition.wait_for under interleavings (its loop and clock arithmetic are checked sequentially by CrossHair with wait() stubbed)', 'RLock recursion depth > 1 under interleavings (the level-by-level release/retake of wait() is checked sequentially)',
              'the kernel semaphore itself (trusted: mutual exclusion, counting, bounded release)'],
     assumptions=['semaphore model: acquire decrements if positive, non-blocking fails at zero, a timed blocking acquire may give up at any step at '
                  'which the value is zero, release increments; validated against the real SemLock on all single-thread sequences of length 5 every run',
@@ -554,6 +554,14 @@ SPECS['C17'] = dict(
         ch('transfer-to-a-spawned-child', 'harness.c17', 'h_transfer', 'Lock/RLock/Semaphore/BoundedSemaphore/Condition/Event rebuilt from their pickled state (as a spawned child does): every '
            'part is the same kernel semaphore in the same role with the same kind and bound, and can be acquired/released through the copy', timeout=(120, 600)),
         twin('transfer-to-a-spawned-child', 'harness.c17', 'h_transfer_twin', 'a rebuilt primitive exists'),
+        ch('wait-for', 'harness.c17', 'h_wait_for', 'real Condition.wait_for over a symbolic clock, the waits played by a stand-in (notified within the time asked for / timed out after at least '
+           'that / spurious wake-ups, <= 3 waits): returns the predicate\'s own value, truthy iff the predicate held at an evaluation; every wait gets exactly the time left to the deadline '
+           '(None without a timeout) and none is started once it has passed; gives up only at or after the deadline; the predicate is re-evaluated after every wake-up', timeout=(200, 900)),
+        twin('wait-for', 'harness.c17', 'h_wait_for_twin', 'a run that needs two waits before the predicate holds exists'),
+        ch('wait-recursive', 'harness.c17', 'h_wait_recursive', 'real Condition.wait under a lock held 0..4 times by the caller (RLock), recording stand-in semaphores, sleep ending woken / timed out / '
+           'interrupted: announced once, every level released before the sleep with the caller\'s timeout, acknowledged once and every level retaken however the sleep ends; refused without '
+           'touching anything when the lock is not owned', timeout=(120, 600)),
+        twin('wait-recursive', 'harness.c17', 'h_wait_recursive_twin', 'an interrupted wait under a doubly held lock exists'),
         ch('wrappers', 'harness.c17', 'h_wrappers', 'Lock/RLock/Semaphore/BoundedSemaphore pass (kind, value, maxvalue) to SemLock as documented', timeout=(120, 600), nontrivial_witness=True),
     ],
 )
@@ -568,8 +576,7 @@ SPECS['C02'] = dict(
                'IMapUnorderedIterator._set', 'TaskHandler.body (set_length)', 'ApplyResult.get', 'billiard.einfo.ExceptionInfo/ExceptionWithTraceback/rebuild_exc'],
     bounds={'quick': 'n <= 3 items, chunk size 0(None)..2, pool of 1..2, at most one raising position, 3 symbolic scheduling events then run to completion',
             'thorough': 'n <= 4, chunk <= 4, any subset of raising positions, 5 events'},
-    outside=['"arguments and results unchanged up to pickling" for arbitrary objects (pickle is C; payloads are tagged tuples)', 'imap/imap_unordered with chunksize > 1 '
-             'and a raising item (one failing item fails its whole chunk and ends the flattening generator; non-raising inputs are covered)', 'pool sizes above 2'],
+    outside=['"arguments and results unchanged up to pickling" for arbitrary objects (pickle is C; payloads are tagged tuples)', 'pool sizes above 2'],
     assumptions=POOL_ASSUME + ['result payloads cross the fake pipe through pickle.loads(pickle.dumps(.))'],
     trusted_base=TRUST + ['pickle (C)'],
     obligations=(
